@@ -338,6 +338,45 @@ class G:
 
 
 # --------------------------------------------------------------------------- programs
+def gen_rejected(g, ms, h, nonjson=True):
+    """A multi-item mutator through handle ``h`` in which one item must be rejected (bad value, or a
+    mapping with a forbidden key nested in a value) while the others are fine - as a ``rejected`` step."""
+    r = g.r
+    H = ms.handles[h]
+    try:
+        base = ms.resolve(H.res, H.path)
+    except Exception:  # noqa: BLE001
+        return None
+    paths = G.container_paths(base)
+    if not paths:
+        return None
+    sub, kind = r.choice(paths)
+    # nonjson=False: the class only forbids non-string keys (Zarr: the codec decides about values)
+    bad = {"$bad": r.choice((["object", "complex", "set", "function"] if nonjson else []) + ["intkey", "nonekey"]
+                            + (["dotkey"] if g.attr else []))}
+    if r.random() < 0.3:
+        bad = r.choice([[1, bad], {"n": bad}])  # nested inside an otherwise fine container
+    good = [g.value(1) for _ in range(r.choice([1, 2, 3]))]
+    pos = r.choice([0, len(good), len(good), r.randrange(len(good) + 1)])
+    items = good[:pos] + [bad] + good[pos:]
+    if kind == "dict":
+        t = base
+        for k in sub:
+            t = t[k]
+        keys = []
+        for _ in items:
+            k = g._exist_or_new_key(t, 0.4)
+            while k in keys:
+                k = g.key() + str(len(keys))
+            keys.append(k)
+        op = r.choice(["update", "update", "reset"])
+        return {"rejected": op, "h": h, "path": sub, "args": [{"$kdict": [[k, v] for k, v in zip(keys, items)]}]}
+    op = r.choice(["extend", "iadd", "reset", "setslice"])
+    if op == "setslice":
+        return {"rejected": "setitem", "h": h, "path": sub, "args": [{"$slice": [0, 1, None]}, items]}
+    return {"rejected": op, "h": h, "path": sub, "args": [items]}
+
+
 def gen_program(g, ms, n_steps, p_read=0.2, depth=2, handles=None, mutator_filter=None,
                 max_doc_nodes=120):
     """Generate op steps against ModelState ``ms`` (advanced as we go).
@@ -377,7 +416,7 @@ def gen_program(g, ms, n_steps, p_read=0.2, depth=2, handles=None, mutator_filte
             op, args = g.dict_read(t) if read else g.dict_mutator(t, depth, allow_d)
         else:
             op, args = g.list_read(t) if read else g.list_mutator(t, depth, allow_l)
-        step = {"op": op, "h": h, "path": sub, "args": args}
+        step = {"op": op, "h": h, "path": sub, "args": args, "k": kind}
         steps.append(step)
         ms.apply_op(step)
     return steps
